@@ -47,6 +47,18 @@ DenseMidQuotient == 8
 (* digit gives > 10^7 units.                                                                              *)
 OrderUnits == 4096
 
+(* C10: symplecticity of the one-step map M (M^T J M = J) "up to rounding or solver tolerance", and time      *)
+(* reversibility step(h); step(-h) "returns the starting state".  For quadratic Hamiltonians M is read        *)
+(* column by column from real steps (rounding level, units of eps * stages); for nonlinear ones M is a          *)
+(* central finite difference of real steps, whose own truncation/rounding noise is ~1e-10, so the defect        *)
+(* must stay below 10^SympFdClass.  Energy: max |H - H0| over the second half of a long run at most            *)
+(* EnergyGrowth times the first half.                                                                         *)
+SympLinUnits == 512
+SympFdClass == -8
+ReverseUnits == 512
+ReverseTolUnits == 100
+EnergyGrowth == 4
+
 (* "modest multiple" of a tolerance (C15) and "modest constant" (C05)         *)
 ModestK == 10
 =============================================================================
